@@ -31,6 +31,9 @@ type Prov struct {
 	Struct   string   // KStruct: the struct type expression, e.g. "*S0"
 	Fields   []string // KStruct: exported field names (sorted), types in FieldTypes
 	FTypes   []string
+	// External: the function lives in another package (Name is qualified, e.g. "extapp.NewServer");
+	// nothing is emitted for it.
+	External bool
 	ValueOf  string // KValue: expression
 	VTerm    string // KValue: the SMT term of the constant, e.g. (litS "x")
 }
@@ -71,7 +74,7 @@ func (p *Program) allProvs() []Prov {
 	var out []Prov
 	for _, d := range p.Decls {
 		for _, pr := range d.Provs {
-			if pr.Kind == KFunc && !seen[pr.Name] {
+			if pr.Kind == KFunc && !pr.External && !seen[pr.Name] {
 				seen[pr.Name] = true
 				out = append(out, pr)
 			}
